@@ -83,7 +83,8 @@ def laguerre_seq(ns, alpha, x):
     """
     ns = list(ns)
     min_i = 0
-    out = np.empty((len(ns), *x.shape), dtype=x.dtype)
+    # rows hold what the recurrence produces: floats, also for integer coordinates
+    out = np.empty((len(ns), *x.shape), dtype=np.result_type(x, 1.0))
 
     if ns[min_i] == 0:
         out[min_i] = 1
